@@ -1,5 +1,7 @@
 import json
 from contextlib import suppress
+from datetime import date
+from ipaddress import IPv4Network, IPv6Network
 from typing import Union
 
 from pydantic import BaseModel, ConfigDict, Field, ValidationError, field_validator, model_validator
@@ -57,6 +59,10 @@ class _Auxiliar(BaseModel):
 
     @classmethod
     def cast(cls, value):
+        if isinstance(value, (date, bytes, IPv4Network, IPv6Network)):
+            # already typed (a model is being validated again): nothing to cast, and a network must not be iterated
+            return value
+
         with suppress(ValidationError):
             value = _Auxiliar(aux=value).aux
 
